@@ -10,6 +10,28 @@
 
 pub use real_sylvia::*;
 
+/// With feature `intercept_json`: `sylvia::cw_std` is the real cosmwasm-std except that
+/// `to_json_binary` records the serde events of the value it is given (what the generated helpers
+/// encode as the message body) instead of producing JSON text, and returns a one-byte marker.  The
+/// text layer is outside every claim; the recorded events are compared with the wire-shape oracle.
+#[cfg(feature = "intercept_json")]
+pub mod cw_std {
+    pub use real_sylvia::cw_std::*;
+
+    pub static mut ENCODED: Option<support::rec::Rec> = None;
+    pub static mut ENCODE_CALLS: u32 = 0;
+    pub const MARKER: u8 = 0xA5;
+
+    pub fn to_json_binary<T: real_sylvia::serde::Serialize + ?Sized>(v: &T) -> StdResult<Binary> {
+        let r = support::rec::record(v);
+        unsafe {
+            ENCODED = r.ok();
+            ENCODE_CALLS += 1;
+        }
+        Ok(Binary::from(vec![MARKER]))
+    }
+}
+
 pub mod serde_json {
     pub use real_sylvia::serde_json::*;
     pub fn to_string<T: ?Sized>(_v: &T) -> Result<String, ()> {
